@@ -41,34 +41,59 @@ fn render_top(rt: &Runtime) -> String {
     r.unwrap_or_else(|_| "empty".into())
 }
 
+fn run_rt(mut rt: Runtime) -> Canon {
+    let mut out = String::new();
+    let opts = RunOpts { max_steps: 2_000_000, ..Default::default() };
+    let r = std::panic::catch_unwind(std::panic::AssertUnwindSafe(|| drive(&mut rt, &opts, &mut out)));
+    match r {
+        Ok((Outcome::Done, _, _)) => {
+            let top = render_top(&rt);
+            Canon { status: "done".into(), out, top }
+        }
+        Ok((Outcome::Error(_), text, _)) => {
+            Canon { status: format!("error:{}", text.lines().next().unwrap_or("")), out, top: "-".into() }
+        }
+        Ok((o, _, _)) => Canon { status: o.tag(), out, top: "-".into() },
+        Err(p) => {
+            std::mem::forget(rt);
+            Canon { status: format!("crash:{}", panic_msg(p)), out, top: "-".into() }
+        }
+    }
+}
+
 fn run_canon(src: &str, skip: bool) -> Canon {
     abra_core::verif_asm::set_skip_optimize(skip);
     let r = std::panic::catch_unwind(std::panic::AssertUnwindSafe(|| {
-        let program = match abra_core::compile_bytecode("main.abra", provider(src, &[])) {
-            Ok(p) => p,
-            Err(_) => return Canon { status: "rejected".into(), out: String::new(), top: "-".into() },
-        };
-        let mut rt = Runtime::new(program);
-        let mut out = String::new();
-        let opts = RunOpts { max_steps: 2_000_000, ..Default::default() };
-        let r = std::panic::catch_unwind(std::panic::AssertUnwindSafe(|| drive(&mut rt, &opts, &mut out)));
-        match r {
-            Ok((Outcome::Done, _, _)) => {
-                let top = render_top(&rt);
-                Canon { status: "done".into(), out, top }
-            }
-            Ok((Outcome::Error(_), text, _)) => {
-                Canon { status: format!("error:{}", text.lines().next().unwrap_or("")), out, top: "-".into() }
-            }
-            Ok((o, _, _)) => Canon { status: o.tag(), out, top: "-".into() },
-            Err(p) => {
-                std::mem::forget(rt);
-                Canon { status: format!("crash:{}", panic_msg(p)), out, top: "-".into() }
-            }
+        match abra_core::compile_bytecode("main.abra", provider(src, &[])) {
+            Ok(p) => run_rt(Runtime::new(p)),
+            Err(_) => Canon { status: "rejected".into(), out: String::new(), top: "-".into() },
         }
     }));
     abra_core::verif_asm::set_skip_optimize(false);
     r.unwrap_or_else(|p| Canon { status: format!("crash:{}", panic_msg(p)), out: String::new(), top: "-".into() })
+}
+
+/// optimizer on, one compilation: the outcome, the optimizer trace and the compiled program's dump
+fn run_traced(src: &str) -> (Canon, Option<Dump>, Option<abra_core::verif_asm::ProgramDump>) {
+    let r = std::panic::catch_unwind(std::panic::AssertUnwindSafe(|| {
+        abra_core::verif_asm::start_optimize_trace();
+        let p = abra_core::compile_bytecode("main.abra", provider(src, &[]));
+        let tr = abra_core::verif_asm::take_optimize_trace();
+        match p {
+            Ok(p) => {
+                let d = abra_core::verif_asm::dump_program(&p);
+                (run_rt(Runtime::new(p)), Some(Dump { trace: tr }), Some(d))
+            }
+            Err(_) => (Canon { status: "rejected".into(), out: String::new(), top: "-".into() }, None, None),
+        }
+    }));
+    match r {
+        Ok(x) => x,
+        Err(p) => {
+            let _ = abra_core::verif_asm::take_optimize_trace();
+            (Canon { status: format!("crash:{}", panic_msg(p)), out: String::new(), top: "-".into() }, None, None)
+        }
+    }
 }
 
 // ------------------------------------------------------------------ assembly tokens
@@ -435,10 +460,31 @@ impl<'a> PG<'a> {
             }
             12 => {
                 let e = self.float_expr(1);
-                let f = *self.rng.pick(&["sqrt", "sin", "cos", "floor", "ceil", "round"]);
                 let v = self.fresh("f");
-                self.lines.push(format!("{ind}let {v} = {f}({e})"));
-                self.floats.push(v);
+                match self.rng.below(12) {
+                    0 => {
+                        // two-operand math intrinsic: operands in locals / on the stack, result into a local
+                        let e2 = self.float_expr(1);
+                        self.lines.push(format!("{ind}let {v} = atan2({e}, {e2})"));
+                        self.floats.push(v);
+                    }
+                    1 => {
+                        // conversion results stored straight into a local
+                        self.lines.push(format!("{ind}let {v} = int_from_float({e})"));
+                        self.lines.push(format!("{ind}println({v})"));
+                        self.ints.push(v);
+                    }
+                    2 => {
+                        let conv = if self.rng.chance(1, 2) { format!("string_from_float({e})") } else { format!("({e}).str()") };
+                        self.lines.push(format!("{ind}let {v} = {conv}"));
+                        self.lines.push(format!("{ind}println({v})"));
+                    }
+                    _ => {
+                        let f = *self.rng.pick(&["sqrt", "sin", "cos", "floor", "ceil", "round", "tan", "asin", "acos", "atan", "log", "log2", "log10"]);
+                        self.lines.push(format!("{ind}let {v} = {f}({e})"));
+                        self.floats.push(v);
+                    }
+                }
             }
             13 => {
                 let e = self.int_expr(1);
@@ -920,6 +966,125 @@ fn imm_jobs(rng: &mut Rng, quick: bool) -> Vec<ImmJob> {
     jobs
 }
 
+// ------------------------------------------------------------------ regression probes
+fn big_frame_program(n: usize) -> String {
+    let mut s = String::from("let x0 = 1\n");
+    for i in 1..n {
+        s.push_str(&format!("let x{i} = x{} + 1\n", i - 1));
+    }
+    // operands and destinations beyond the 15-bit register range, in every fusable position
+    s.push_str(&format!("println(x{})\n", n - 1));
+    s.push_str(&format!("let y = 0 - x{} + x0\nprintln(y)\n", n - 1));
+    s
+}
+
+fn big_pool_program(n: usize) -> String {
+    let ints: Vec<String> = (0..n).map(|i| i.to_string()).collect();
+    let floats: Vec<String> = (0..n).map(|i| format!("{i}.5")).collect();
+    format!(
+        "let a = [{}]\nlet n = a.len()\nprintln(n + 700001)\nprintln(n * 700002)\nprintln(n < 700003)\nprintln(700004 - n)\nvar m = n\nm = 700005\nprintln(m)\na.push(700006)\nprintln(a[a.len() - 1])\nprintln(n + 5)\nlet f = [{}]\nlet x = f[1]\nprintln(x + 700001.25)\nprintln(x < 700002.25)\nprintln(x * 700003.5)\nprintln(x + 2.5)\n",
+        ints.join(", "),
+        floats.join(", ")
+    )
+}
+
+fn big_pool_expected(n: usize) -> String {
+    let n = n as i64;
+    let x = 1.5f64;
+    format!(
+        "{}\n{}\n{}\n{}\n700005\n700006\n{}\n{}\n{}\n{}\n{}\n",
+        n + 700001, n * 700002, n < 700003, 700004 - n, n + 5, x + 700001.25, x < 700002.25, x * 700003.5, x + 2.5
+    )
+}
+
+/// the constant pool exactly as `gather_constants` numbers it (order of first occurrence)
+fn gather_pool(lines: &[String]) -> (Vec<i64>, Vec<String>) {
+    let (mut ints, mut floats): (Vec<i64>, Vec<String>) = (vec![], vec![]);
+    let (mut iseen, mut fseen) = (std::collections::HashSet::new(), std::collections::HashSet::new());
+    for l in lines {
+        let Some(t) = instr_text(l) else { continue };
+        let name = t.split('(').next().unwrap_or("");
+        let is_float = name == "PushFloat" || (name.ends_with("FloatImm"));
+        let is_int = name == "PushInt" || name == "StoreOffsetImm" || name == "ArrayPushIntImm" || name == "ModuloImm" || name.ends_with("IntImm");
+        if is_float {
+            if let Some(q) = quoted(t) {
+                if fseen.insert(q.to_string()) {
+                    floats.push(q.to_string());
+                }
+            }
+        } else if is_int {
+            let last = t.trim_end_matches(')').rsplit(|c| c == ',' || c == '(').next().unwrap_or("").trim();
+            if let Ok(v) = last.parse::<i64>() {
+                if iseen.insert(v) {
+                    ints.push(v);
+                }
+            }
+        }
+    }
+    (ints, floats)
+}
+
+/// the `expand_immediates` tie for one program: request for the model and the implementation's final
+/// instruction list (`Name` / `Name:<constant>` per VM instruction, assembly names)
+fn expand_case(dump: &Dump, d: &abra_core::verif_asm::ProgramDump, name: &str, spec: &mut Vec<String>) -> Option<(String, String, usize)> {
+    let last = dump.trace.last()?;
+    let (ints, floats) = gather_pool(last);
+    if ints != d.int_constants {
+        spec.push(format!("{name}: the int constant pool is not the first-occurrence order of the optimized assembly ({} vs {} entries)", d.int_constants.len(), ints.len()));
+        return None;
+    }
+    let fbits: Vec<u64> = floats.iter().map(|f| f.parse::<f64>().map(|x| x.to_bits()).unwrap_or(0)).collect();
+    if fbits != d.float_constants_bits {
+        spec.push(format!("{name}: the float constant pool is not the first-occurrence order of the optimized assembly"));
+        return None;
+    }
+    let mut req = String::from("opt expand");
+    for v in ints.iter().skip(65536) {
+        req.push_str(&format!(" NI:{v}"));
+    }
+    for f in floats.iter().skip(65536) {
+        req.push_str(&format!(" NF:{}", lit_token(f)));
+    }
+    for l in last {
+        req.push(' ');
+        req.push_str(&token_of_line(l));
+    }
+    req.push_str(&format!(" #{name}.expand"));
+    let rename = |n: &str| -> String {
+        match n {
+            "SubtractInt" => "SubInt".into(),
+            "DivideInt" => "DivInt".into(),
+            "DivideIntImm" => "DivIntImm".into(),
+            "PowerInt" => "PowInt".into(),
+            "PowerIntImm" => "PowIntImm".into(),
+            "PowerFloat" => "PowFloat".into(),
+            "PowerFloatImm" => "PowFloatImm".into(),
+            o => o.to_string(),
+        }
+    };
+    let mut expanded = 0usize;
+    let mut out: Vec<String> = vec![];
+    for t in &d.instructions {
+        let name = rename(t.split(|c| c == '(' || c == ' ' || c == '{').next().unwrap_or(""));
+        let last_arg = t.trim_end_matches(')').rsplit(|c| c == ',' || c == '(').next().unwrap_or("").trim().to_string();
+        let idx = last_arg.parse::<usize>().ok();
+        let is_float = name == "PushFloat" || name.ends_with("FloatImm");
+        let is_int = name == "PushInt" || name == "StoreOffsetImm" || name == "ArrayPushIntImm" || name == "ModuloImm" || name.ends_with("IntImm");
+        if is_float {
+            out.push(format!("{name}:{}", idx.and_then(|i| floats.get(i)).map(|f| lit_token(f)).unwrap_or("?".into())));
+        } else if is_int {
+            out.push(format!("{name}:{}", idx.and_then(|i| ints.get(i)).map(|v| v.to_string()).unwrap_or("?".into())));
+        } else {
+            out.push(name);
+        }
+    }
+    let n_lines = last.iter().filter(|l| l.starts_with("I ")).count();
+    if out.len() > n_lines {
+        expanded = out.len() - n_lines;
+    }
+    Some((req, out.join(" "), expanded))
+}
+
 // ------------------------------------------------------------------ main
 fn main() {
     let mut ctx = Ctx::from_env("C05");
@@ -948,6 +1113,28 @@ fn main() {
     for (i, d) in directed.iter().enumerate() {
         programs.push((format!("directed{i}"), d.to_string()));
     }
+    // math intrinsics / conversions with local operands and `let` destinations (replace_first_arg /
+    // replace_second_arg / replace_dest arms of Atan2, Tan..Log10, IntFromFloat, StringFromFloat), and the
+    // instructions outside the optimizer's vocabulary (string hashing, bit ops, channels and tasks, string
+    // bytes, intrinsic function values) so that they pass through the exact tie as opaque lines
+    let directed2 = [
+        "let y = 1.0\nlet x = 2.0\nlet half = 0.5\nlet a = atan2(y, x)\nprintln(a)\nlet b = atan2(y * 2.0, x)\nprintln(b)\nlet b2 = atan2(y, x * 2.0)\nprintln(b2)\nlet t = tan(half)\nprintln(t)\nlet asn = asin(half)\nprintln(asn)\nlet ac = acos(half)\nprintln(ac)\nlet at = atan(half)\nprintln(at)\nlet l = log(x)\nprintln(l)\nlet l2 = log2(x)\nprintln(l2)\nlet l10 = log10(x)\nprintln(l10)\nlet i = int_from_float(x)\nprintln(i)\nlet s = x.str()\nprintln(s)\nlet s2 = string_from_float(half)\nprintln(s2)\nprintln(tan(x) + asin(half) + acos(half) + atan(x) + log(x) + log2(x) + log10(x))\n",
+        "let h = \"key\".hash()\nprintln(h)\nprintln(bit_xor(5, 3))\nprintln(wrapping_add(1, 2))\nprintln(wrapping_mul(3, 4))\nlet c: channel<int> = channel()\ntask { c.write(1) }\nprintln(c.read())\nprintln(string_nth_byte(\"abc\", 1))\nprintln(string_count_bytes(\"abc\"))\nprintln(int_from_float(2.5))\nfn apply(f, a, b) {\n    f(a, b)\n}\nprintln(apply(array_get, [1, 2], 1))\nprintln(apply(array_get, [1, 2], 5))\n",
+    ];
+    for (i, d) in directed2.iter().enumerate() {
+        programs.push((format!("intrinsics{i}"), d.to_string()));
+    }
+    // hard regression probes with known answers (never adaptive): D90 (a frame with more than 16384 slots:
+    // offsets beyond 15 bits are not fused) and constant pools with more than 65536 entries (immediates are
+    // expanded back to push + plain instruction)
+    let probes: Vec<(String, String, String)> = vec![
+        ("probeD90".to_string(), big_frame_program(17000), "17000\n-16999\n".to_string()),
+        ("probebigpool".to_string(), big_pool_program(65540), big_pool_expected(65540)),
+    ];
+    // (first in the list: they are the slowest to compile and should overlap with everything else)
+    for (n, src, _) in &probes {
+        programs.insert(0, (n.clone(), src.clone()));
+    }
     // chains of literal operands after a variable: every operator pair, in one program per triple
     let (chain_ints, chain_floats) = chain_triples(&mut ctx.rng, quick);
     for (i, (v, a, b)) in chain_ints.iter().enumerate() {
@@ -961,9 +1148,11 @@ fn main() {
         on: Canon,
         off: Canon,
         dump: Option<Dump>,
+        expand: Option<(String, String, usize)>,
+        expand_spec: Vec<String>,
     }
-    let results = par_map(&programs, |(_, src)| {
-        let mut on = run_canon(src, false);
+    let results = par_map(&programs, |(name, src)| {
+        let (mut on, dump, pdump) = run_traced(src);
         let mut off = run_canon(src, true);
         // The value left on main's stack is the program's value only when the last statement is an
         // expression; otherwise it is whichever local got the last slot (hash-set order over node ids that
@@ -980,8 +1169,14 @@ fn main() {
             on.top = "n/a".into();
             off.top = "n/a".into();
         }
-        let dump = if on.status == "rejected" { None } else { dump(src) };
-        PRes { on, off, dump }
+        // `expand_immediates` tie for the directed / intrinsics / probe programs
+        let mut expand_spec = vec![];
+        let want_expand = name.starts_with("probe") || name.starts_with("intrinsics") || name.starts_with("directed");
+        let expand = match (&dump, &pdump) {
+            (Some(d), Some(pd)) if want_expand => expand_case(d, pd, name, &mut expand_spec),
+            _ => None,
+        };
+        PRes { on, off, dump, expand, expand_spec }
     });
     let mut rule_hist: std::collections::BTreeMap<String, u64> = Default::default();
     for ((name, src), r) in programs.iter().zip(&results) {
@@ -1014,7 +1209,7 @@ fn main() {
             let mut t = BTreeSet::new();
             fold_table(&d.trace[k], &mut t);
             union.extend(t.iter().cloned());
-            let send = !quick || k == 0 || k + 1 == npass;
+            let send = (!quick || k == 0 || k + 1 == npass) && d.trace[k].len() < 20000;
             if send {
                 let table: Vec<String> = t.into_iter().collect();
                 let lines: Vec<String> = d.trace[k].iter().map(|l| token_of_line(l)).collect();
@@ -1049,6 +1244,29 @@ fn main() {
     }
     for (k, v) in rule_hist {
         *ctx.hist.entry(k).or_insert(0) += v;
+    }
+    // hard regression probes: known output, optimizer on and off
+    for (name, _, expected) in &probes {
+        let i = programs.iter().position(|p| &p.0 == name).unwrap();
+        for (which, c) in [("on", &results[i].on), ("off", &results[i].off)] {
+            if c.status != "done" || &c.out != expected {
+                ctx.spec_fail(format!("regression probe {name} (optimizer {which}): {} {:?}, expected done {:?}", c.status, c.out.chars().take(300).collect::<String>(), expected));
+            }
+        }
+    }
+    // `expand_immediates`: the final instruction list against Opt.expandImmediates (every directed /
+    // intrinsics / probe program; only the big pool has constants beyond 16 bits)
+    for ((name, _), r) in programs.iter().zip(&results) {
+        for s in &r.expand_spec {
+            ctx.spec_fail(s.clone());
+        }
+        if let Some((req, imp, expanded)) = &r.expand {
+            ctx.case(req.clone(), imp.clone());
+            *ctx.hist.entry("expand:immediates-expanded".into()).or_insert(0) += *expanded as u64;
+            if name == "probebigpool" && *expanded == 0 {
+                ctx.spec_fail("probebigpool: no immediate was expanded although the pool has more than 65536 entries (the generator no longer reaches expand_immediates)".to_string());
+            }
+        }
     }
 
     // ---------- (3): literal / variable forms
